@@ -26,13 +26,21 @@ def handle(req):
     from dsim.canon import dump_model, outcome_of
     from dsim.props import c12
     kind = req.get('kind', 'restore')
-    with seams.Ambient(req.get('seed', 0)):
+    clock = seams.SimClock(req['clock']) if req.get('clock') else None
+    with seams.Ambient(req.get('seed', 0), clock):
         if kind == 'twin_eval':
             from xlcalculator import Evaluator, ast_nodes
             ast_nodes.MAX_EMPTY = req.get('max_empty', 100)
-            model = worlds.world_model(req['world'], cells=req['cells'])
-            ev = Evaluator(model, seams.UserFuncs(None).namespace(
-                tag=req.get('tag', 0)))
+            model = worlds.world_model(req['world'], cells=req['cells'],
+                                       stale=req.get('stale', False))
+            kind = req.get('evaluator_kind', 'uf')
+            uf = seams.UserFuncs(None)
+            if kind == 'uf':
+                ev = Evaluator(model, uf.namespace(tag=req.get('tag', 0)))
+            else:
+                ev = Evaluator(model)
+                if kind == 'spy':
+                    ev.namespace['SPY'] = uf.namespace()['SPY']
             return {'ok': True, 'outcomes': {
                 t: outcome_of(ev.evaluate, t) for t in req['targets']}}
         fs = seams.SimFS()
@@ -133,11 +141,13 @@ class Child:
             'data': base64.b64encode(data).decode(),
             'ignore': list(ignore), 'seed': seed})
 
-    def twin_eval(self, world, cells, targets, tag=0, max_empty=100, seed=0):
+    def twin_eval(self, world, cells, targets, tag=0, max_empty=100, seed=0,
+                  stale=False, evaluator_kind='uf', clock=None):
         return self.request({
             'kind': 'twin_eval', 'world': world, 'cells': cells,
             'targets': list(targets), 'tag': tag, 'max_empty': max_empty,
-            'seed': seed})
+            'seed': seed, 'stale': stale, 'evaluator_kind': evaluator_kind,
+            'clock': clock})
 
     @classmethod
     def shutdown(cls):
